@@ -140,6 +140,12 @@ type Service struct {
 	// by the cluster.
 	highWatermark atomic.Uint64
 
+	// hwmConfirmed is set once the high watermark reflects an actual delivery by this
+	// process or an update received from the cluster. The value derived from the FIFO
+	// at startup is only a local lower bound for filtering: the first queued batch may
+	// contain indexes below its key, so it must not be broadcast to other nodes.
+	hwmConfirmed rsync.AtomicBool
+
 	// highWatermarkInterval is the interval at which the high watermark is written to the store.
 	// This is used to ensure that the high watermark is written periodically,
 	highWatermarkInterval time.Duration
@@ -582,6 +588,7 @@ func (s *Service) leaderLoop() (chan struct{}, chan struct{}) {
 				s.undelivered = nil
 				if sentOK {
 					s.highWatermark.Store(ev.Index)
+					s.hwmConfirmed.Set()
 					stats.Add(numEventsTxOK, 1)
 				}
 			}
@@ -623,7 +630,7 @@ func (s *Service) leaderHWMLoop() (chan struct{}, chan struct{}) {
 
 			case <-hwmTicker.C:
 				hwm := s.highWatermark.Load()
-				if hwm == 0 {
+				if hwm == 0 || s.hwmConfirmed.IsNot() {
 					continue
 				}
 				// Continually broadcast the high watermark, even if it
@@ -676,6 +683,7 @@ func (s *Service) followerLoop() (chan struct{}, chan struct{}) {
 				}
 				hwmPersisted = hwm
 				s.highWatermark.Store(hwm)
+				s.hwmConfirmed.Set()
 				s.hwmFollowerUpdated.Add(1)
 			}
 		}
